@@ -137,7 +137,7 @@ func (a *AttachmentMigrationManager) Run(ctx context.Context, options Attachment
 		}
 
 		a.docsProcessed.Add(1)
-		_, syncData, err := UnmarshalDocumentSyncDataFromFeed(event.Value, event.DataType, collection.UserXattrKey(), false)
+		rawDoc, syncData, err := UnmarshalDocumentSyncDataFromFeed(event.Value, event.DataType, collection.UserXattrKey(), false)
 		if err != nil {
 			base.WarnfCtx(ctx, "[%s] error unmarshaling document %s: %v, stopping attachment migration.", migrationLoggingID, base.UD(docID), err)
 			a.docsFailed.Add(1)
@@ -147,6 +147,21 @@ func (a *AttachmentMigrationManager) Run(ctx context.Context, options Attachment
 		if syncData == nil || syncData.AttachmentsPre4dot0 == nil {
 			// no attachments to migrate
 			return true
+		}
+
+		// Only rewrite metadata for mutations written by Sync Gateway. If the document has an external (SDK) update
+		// that has not been imported yet, stamping _sync.cas/_sync.value_crc32c here would make that update look like
+		// an SG write and it would never be imported. Import moves the attachment metadata when it rewrites the doc.
+		// Documents with invalid sync data are never imported, so there is no pending import to preserve for those.
+		if syncData.HasValidSyncData() {
+			var cv *rawHLV
+			if vv := rawDoc.Xattrs[base.VvXattrName]; len(vv) > 0 {
+				cv = base.Ptr(rawHLV(vv))
+			}
+			if isSGWrite, _, _ := syncData.IsSGWrite(ctx, event.Cas, rawDoc.Body, rawDoc.Xattrs[collection.UserXattrKey()], cv); !isSGWrite {
+				base.DebugfCtx(ctx, base.KeyAll, "[%s] Doc %s has an update pending import, attachment metadata will be migrated by import", migrationLoggingID, base.UD(docID))
+				return true
+			}
 		}
 
 		collCtx := collection.AddCollectionContext(ctx)
